@@ -115,7 +115,8 @@ func runC06(r *ev.Run) {
 			var v []float32
 			var text string
 			var md map[string]any
-			for v == nil && text == "" && md == nil {
+			for len(v) == 0 && text == "" && len(md) == 0 {
+				v, md = nil, nil
 				if rng.IntN(4) > 0 {
 					v = vg.fresh()
 				}
@@ -128,6 +129,15 @@ func runC06(r *ev.Run) {
 						md = nil
 					}
 				}
+			}
+			// "no embedding" / "no metadata" also come as EMPTY, non-nil values
+			if v == nil && rng.IntN(3) == 0 {
+				v = []float32{}
+				r.Count("ops:doc-with-empty-non-nil-vector", 1)
+			}
+			if md == nil && rng.IntN(3) == 0 {
+				md = map[string]any{}
+				r.Count("ops:doc-with-empty-non-nil-metadata", 1)
 			}
 			return v, text, md
 		}
